@@ -258,7 +258,9 @@ def kill (c : Cfg) (s : St) : St :=
   else s
 
 inductive Ev
-  | nodeDone (n : Node)
+  | nodeDone (n : Node)     -- a consumer node completes or is found disabled
+  | nodeFailed (n : Node)   -- a consumer node fails: it is NOT done (it may be reset and run again)
+  | nodeReset (n : Node)    -- a failed consumer node is reset for a retry (automatic retry, restart)
   | removeEmpty
   | cacheMap
   | early (upto : Nat)   -- partialVdrKill before the fork is complete: temp directories only
@@ -267,6 +269,8 @@ inductive Ev
 
 def step (c : Cfg) (s : St) : Ev → St
   | .nodeDone n => { s with doneNodes := n :: s.doneNodes }
+  | .nodeFailed _ => s
+  | .nodeReset _ => s
   | .removeEmpty => removeEmpty c s
   | .cacheMap => cacheMap c s
   | .early upto => if s.final then s else cleanTmp c s (min upto 2)
